@@ -32,5 +32,73 @@ fn xack_ids(parts: &[RespFrame], out: &mut Vec<StreamId>) -> (r: Result<RespFram
         !ids_ok(parts@, 3) ==> (r matches Ok(f) && f is Error) && final(out)@ == old(out)@,
 //@@ body
 //@@ end
+// ======================= XRANGE / XREVRANGE: bounds and COUNT (C15) =========================
+impl StreamId {
+    /// ASSUMED CONTRACTS (stream.rs StreamId::min / max — units sid_min / sid_max of c16_pel)
+    #[verifier::external_body]
+    pub fn min() -> (r: Self) ensures r.packed == 0, { unimplemented!() }
+    #[verifier::external_body]
+    pub fn max() -> (r: Self) ensures r.packed == u128::MAX, { unimplemented!() }
+}
+/// `<Cow<str>> == "<literal>"` (R7 site): comparison of the decoded text
+#[verifier::external_body]
+pub fn verif_cow_is(a: &Cow<'_, str>, b: &&str) -> (r: bool) ensures r == (cow_chars(*a) == (**b)@), { unimplemented!() }
+/// `<String> == "<literal>"` (R7 site)
+#[verifier::external_body]
+pub fn verif_string_is(a: &String, b: &&str) -> (r: bool) ensures r == (a@ == (**b)@), { unimplemented!() }
+/// upper-cased lossy decoding of an option word (`String::from_utf8_lossy(bytes).to_uppercase()`, RXPR site; uninterpreted)
+pub uninterp spec fn spec_upper(b: Seq<u8>) -> Seq<char>;
+#[verifier::external_body]
+pub fn verif_upper(b: &Arc<Vec<u8>>) -> (r: String) ensures r@ == spec_upper(b@), { unimplemented!() }
+/// `String::new()` (RT site)
+#[verifier::external_body]
+pub fn verif_empty_string() -> (r: String) ensures r@.len() == 0, { unimplemented!() }
+/// a range bound: the one-character word for the open end (`-` lowest, `+` highest), otherwise the id the argument spells; None = refused
+pub open spec fn bound_arg(parts: Seq<RespFrame>, i: int, open_word: Seq<char>, open_id: u128) -> Option<u128> {
+    match arg(parts, i) { None => None, Some(b) => if lossy(b) == open_word { Some(open_id) } else { match sid_parse(b) { Some(id) => Some(id.packed), None => None } } }
+}
+pub open spec fn opt_packed(o: Option<StreamId>) -> Option<u128> { match o { Some(id) => Some(id.packed), None => None } }
+
+//@@ unit xrange_args stmts src/storage/commands/streams.rs handle_xrange "let start_str" upto "let entries"
+//@@   opt same-return-type
+//@@   rewrite R7 "start_str == \"-\"" verif_cow_is byref
+//@@   rewrite R7 "end_str == \"+\"" verif_cow_is byref
+//@@   rewrite R7 "count_keyword == \"COUNT\"" verif_string_is byref
+//@@   rewrite RPCALL "StreamId::from_string" verif_sid_from_cow
+//@@   rewrite RXPR "String::from_utf8_lossy(bytes).to_uppercase()" "verif_upper(bytes)"
+//@@   rewrite RT "String::new()" "verif_empty_string()"
+//@@   rewrite RCALL parse "String::from_utf8_lossy(bytes)" verif_cow_parse
+//@@   tail *out = (start, end, count); Ok(RespFrame::ok())
+fn xrange_args(parts: &[RespFrame], out: &mut (StreamId, StreamId, Option<usize>)) -> (r: Result<RespFrame>)
+    requires parts@.len() >= 4,
+    ensures
+        // C15 (XRANGE key start end [COUNT n]): the lower bound is argument 2 (`-` = the lowest id), the upper bound argument 3 (`+` = the
+        // highest id); a bound that is neither refuses the command; COUNT n is handed on as n, a malformed n refuses
+        (bound_arg(parts@, 2, "-"@, 0) is None || bound_arg(parts@, 3, "+"@, u128::MAX) is None) ==> (r matches Ok(f) && f is Error) && *final(out) == *old(out),
+        bound_arg(parts@, 2, "-"@, 0) is Some && bound_arg(parts@, 3, "+"@, u128::MAX) is Some && parts@.len() == 4 ==> (r matches Ok(f) && !(f is Error))
+            && Some(final(out).0.packed) == bound_arg(parts@, 2, "-"@, 0) && Some(final(out).1.packed) == bound_arg(parts@, 3, "+"@, u128::MAX) && final(out).2 is None,
+        bound_arg(parts@, 2, "-"@, 0) is Some && bound_arg(parts@, 3, "+"@, u128::MAX) is Some && parts@.len() == 6 && arg(parts@, 4) is Some && spec_upper(arg(parts@, 4)->Some_0) == "COUNT"@ ==>
+            (match num_arg::<usize>(parts@, 5) {
+                Some(n) => (r matches Ok(f) && !(f is Error)) && Some(final(out).0.packed) == bound_arg(parts@, 2, "-"@, 0) && Some(final(out).1.packed) == bound_arg(parts@, 3, "+"@, u128::MAX) && final(out).2 == Some(n),
+                None => (r matches Ok(f) && f is Error) && *final(out) == *old(out),
+            }),
+//@@ body
+//@@ end
+
+//@@ unit xrevrange_bounds stmts src/storage/commands/streams.rs handle_xrevrange "let end_str" upto "let count"
+//@@   opt same-return-type
+//@@   rewrite R7 "start_str == \"-\"" verif_cow_is byref
+//@@   rewrite R7 "end_str == \"+\"" verif_cow_is byref
+//@@   rewrite RPCALL "StreamId::from_string" verif_sid_from_cow
+//@@   tail *out = (start, end); Ok(RespFrame::ok())
+fn xrevrange_bounds(parts: &[RespFrame], out: &mut (StreamId, StreamId)) -> (r: Result<RespFrame>)
+    requires parts@.len() >= 4,
+    ensures
+        // C15 (XREVRANGE key end start): the arguments come in the opposite order — argument 2 is the UPPER bound, argument 3 the lower
+        (bound_arg(parts@, 3, "-"@, 0) is None || bound_arg(parts@, 2, "+"@, u128::MAX) is None) ==> (r matches Ok(f) && f is Error) && *final(out) == *old(out),
+        bound_arg(parts@, 3, "-"@, 0) is Some && bound_arg(parts@, 2, "+"@, u128::MAX) is Some ==> (r matches Ok(f) && !(f is Error))
+            && Some(final(out).0.packed) == bound_arg(parts@, 3, "-"@, 0) && Some(final(out).1.packed) == bound_arg(parts@, 2, "+"@, u128::MAX),
+//@@ body
+//@@ end
 } // verus!
 fn main() {}
